@@ -247,6 +247,13 @@ def decide(rep, prog):
     truncated_paths = [0]
     for st, ret in res['topo.query']:
         if any(e[0] == 'malloc-failed' for e in st.trace):
+            # nothing was reported on a path that sent nothing: the recorded observations stay for the mapper's next Query
+            if not sends(st) and st.objs.get('st') is not None:
+                lost = [e for e, _ in effects(st, 'free') if e[1] == 'SEEN']
+                cnt_f = st.canon(mem.load_scalar(st, st.objs['st'], C(fs.soff('see_list_count')), fs.ix.parse_type('unsigned int')))
+                rep.check(not lost and st.same(cnt_f, SEEN_COUNT), 'R07.f', 'query|unreported-released',
+                          'a Query that could not be answered (allocation refused, no frame sent) releases recorded observations / leaves count %s: they are never reported'
+                          % short(cnt_f), function='parseQuery', file=fnf)
             continue
         sn = sends(st)
         rep.check(len(sn) == 1, 'R07.d', 'query|one-response', 'a Query is answered by %d frames' % len(sn), function='parseQuery', file=fnf)
